@@ -244,6 +244,52 @@ Example C08_twin_survives :
      mkSnap [[x01]] []; mkSnap [[x01]; [x01]] []; mkSnap [[x01]] []].
 Proof. vm_compute. reflexivity. Qed.
 
+(** ** zero-length views (model/HeapViews.v).  An item of length 0 is still a slice: the left half of a split at 0,
+    the right half of a split at the end, an OP_PUSHDATA1/2/4 of length 0 have an address and the capacity of what
+    lies behind them, and a handler that appends to such an operand writes into the sibling item or the caller's
+    script.  The sharing machine carries them as (array, offset, 0); the refined observable [canon_trace_z] shows
+    them to the correspondence (the harness locates zero-length items that have capacity left).  It refines the
+    observable of model/Heap.v: same numbering of the arrays, and with the zero-length entries erased it IS
+    [canon_trace] - for every heap and every list of snapshots. *)
+From GoBT Require model.HeapViews proofs.HeapViewsProofs.
+Theorem C08_zero_length_views_refine_the_sharing_observable : forall h ub lb sn,
+  map HeapViewsProofs.erase_snap (HeapViews.canon_trace_z h ub lb sn) = canon_trace ub lb sn.
+Proof. exact HeapViewsProofs.canon_trace_z_refines. Qed.
+Print Assumptions C08_zero_length_views_refine_the_sharing_observable.
+
+(** a zero-length view that starts strictly inside an array seen before is expected in exactly that array at
+    exactly that offset: no other report of the harness is accepted *)
+Theorem C08_zero_length_view_inside_an_array_is_located : forall h tbl x k base o,
+  sl_len x = 0%nat -> HeapViews.is_nil_slice x = false -> lookup tbl (sl_arr x) 1 = Some (k, base) ->
+  (sl_off x < length (nth (sl_arr x) h []))%nat ->
+  HeapViews.meets (snd (HeapViews.canon1z h tbl x)) o = true ->
+  o = (Z.of_nat k, (Z.of_nat (sl_off x) - Z.of_nat base)%Z, 0%Z).
+Proof.
+  intros h tbl x k base o Hl Hn Hk Hin Hm.
+  rewrite (HeapViewsProofs.canon1z_inside_is_exact h tbl x k base Hl Hn Hk Hin) in Hm.
+  exact (HeapViewsProofs.meets_exact _ _ Hm).
+Qed.
+Print Assumptions C08_zero_length_view_inside_an_array_is_located.
+
+(** x 0 SPLIT SWAP 2 NUM2BIN, x = 1234 pushed by the locking script: the left half of the split is a zero-length
+    view of the locking script at x's own offset (array 1, offset 1: exactly one report accepted), the right half
+    is x; OP_NUM2BIN's result 0000 is a NEW array (array 3 of the heap; array 2 is the number 2 pushed by OP_2), x still reads 1234 in the final heap and
+    the caller's locking script is what it was *)
+Example C08_empty_view_example :
+  match h_engine_execute no_sigops
+          (mkExecInput [] [x02; x12; x34; x00; x7f; x7c; x52; x80; x75; x75; x51] 16384 false false 0 0 0) with
+  | HRes v sn h =>
+      v = VOk /\
+      nth_error sn 2 = Some ([mkSl 1 1 0; mkSl 1 1 2], []) /\                          (* SPLIT: c[:0], c[0:] *)
+      nth_error sn 5 = Some ([mkSl 1 1 2; mkSl 3 0 2], []) /\                          (* NUM2BIN: a new array *)
+      nth_error (HeapViews.canon_trace_z h [] [x02; x12; x34; x00; x7f; x7c; x52; x80; x75; x75; x51] sn) 2
+        = Some ([((1, 1, 0), (1, 1, 0)); ((1, 1, 2), (1, 1, 2))]%Z, []) /\
+      rd h (mkSl 1 1 2) = [x12; x34] /\ rd h (mkSl 3 0 2) = [x00; x00] /\
+      nth 1 h [] = [x02; x12; x34; x00; x7f; x7c; x52; x80; x75; x75; x51]
+  | HResStuck => False
+  end.
+Proof. vm_compute. repeat split; reflexivity. Qed.
+
 (** State inventory (tie, translator part): every Go struct the model of this property represents has, in the
     source as it is NOW (gen/Structs.v, regenerated on every run), exactly the fields - names, types, order - the
     model was written against (model/StateInventory.v).  New state in these objects (a memoised digest, a cached
